@@ -450,7 +450,10 @@ def sites_of(code, ll):
         return []
     insns = list(dis.Bytecode(code))
     table = exc_table(code)
-    awb = ll.analyze_with_blocks(code)
+    try:
+        awb = ll.analyze_with_blocks(code)
+    except Exception:  # fail closed: every site of this code object reports a missing analysis
+        awb = {}
     out = []
     for j, ins in enumerate(insns):
         if ins.opname in ("BEFORE_WITH", "BEFORE_ASYNC_WITH", "SETUP_WITH", "SETUP_ASYNC_WITH"):
@@ -701,6 +704,11 @@ def build_source(spec):
     lines = []
     ind = "    "
     lines.append(("async def g():" if spec["async"] else "def g():"))
+    if spec.get("bigconsts"):
+        # docstring + >256 constants before the first use of None: LOAD_CONST None needs EXTENDED_ARG
+        lines.append(ind + '"""doc"""')
+        for n in range(300):
+            lines.append(ind + "n0 = %d" % (1000 + n))
     for p in PROLOGUE:
         lines.append(ind + p)
     for lv in spec["levels"]:
@@ -898,6 +906,7 @@ def gen_sites(spec):
             hint = [by_id[i]["t"]] if i in by_id else [["tname", "fast", "sib"]]
         o = site_obs(site, ni, gcode, hint)
         o["has_tree"] = hint is not None
+        o["item_id"] = i if ni is not None else None
         res.append(o)
     _STASH[key] = res
     return res
@@ -909,7 +918,7 @@ def gen_sites(spec):
 SIG_CONST = "C08_const_repr_not_source"
 
 
-def runtime_check(spec, src=None, filename="<c08prog>"):
+def runtime_check(spec, src=None, filename="<c08prog>", details=None):
     """run the generated function up to the suspension point inside the innermost body, extract,
     compare every context with the ast. Returns (n_contexts_checked, [problem strings], stats)"""
     import warnings
@@ -944,6 +953,12 @@ def runtime_check(spec, src=None, filename="<c08prog>"):
         problems.append("active contexts %r, expected managers %r" % (got_ids, [it["id"] for it in want]))
         return len(ctxs), problems, stats
     slices_ok = PY >= (3, 12)
+    if details is not None:
+        # locals in f_locals order with object identities numbered by first occurrence
+        ids = {}
+        loc = [(n, ids.setdefault(id(val), len(ids))) for n, val in flocals.items()]
+        for c, it in zip(ctxs, want):
+            details.append({"item_id": it["id"], "locals": loc, "obj": ids.setdefault(id(c.obj), len(ids)), "varname": c.varname})
     for c, it in zip(ctxs, want):
         lineno, is_async, tnode = exp[it["id"]]
         if c.start_line != lineno:
